@@ -274,6 +274,8 @@ class X690Model:
             method = kwargs.get("digestmod", args[2] if len(args) > 2 else None)
             if not isinstance(method, (str, SStr)):
                 raise Undecided("hmac.new with a non-string digestmod")
+            if msg is None:
+                raise Undecided("an hmac object fed incrementally (hmac.new without msg, update(), copy()) is not modelled")
             d = SBytes(rt.f_hmac(rt.to_str_expr(method), rt.wire.z(key), rt.wire.z(msg)))
             cls = PyClass("hmac-object", [], kind="builtin")
             cls.native_attrs["digest"] = Builtin("digest", lambda i, a, k: d)
